@@ -195,7 +195,7 @@ func (i Int16) ExponentiateInt16(other Int16) Int16 {
 	}
 	result := i
 	var j Int16
-	for j = 2; j <= other; j++ {
+	for j = other; j > 1; j-- {
 		result *= i
 	}
 	return result
